@@ -9,48 +9,62 @@ open Sb.Utils
 
 def fbitsArg (s : String) : Option F32 := f32Tok s
 
-/-- travel time: the symmetric accelerate–cruise–decelerate profile, compared without `sqrt` -/
+/-- travel time: the symmetric accelerate–cruise–decelerate profile, compared without `sqrt`.
+`.ok tag` or `.error message` for the implementation's answer `r` to (distance, speed, acceleration) -/
+def ttJudge (d v a r : F32) (rb : String) : Except String String :=
+  let invalid : Bool :=
+    (match d with | .fin q => q < 0 | .ninf => true | .nan => true | .pinf => false) ||
+    (match v with | .fin q => q ≤ 0 | .ninf => true | .nan => true | .pinf => false) ||
+    (match a with | .fin q => q ≤ 0 | .ninf => true | .nan => true | .pinf => false)
+  if invalid then (if r = .pinf then .ok "tt:invalid" else .error s!"invalid arguments must give +inf, impl bits {rb}")
+  else
+    match d, v, a with
+    | .fin dq, .fin vq, .fin aq =>
+      if dq = 0 then (if r = .fin 0 then .ok "tt:zero" else .error "distance 0 must give 0")
+      else
+        match r with
+        | .fin t =>
+          let rel : Rat := 1 / 262144
+          if dq ≥ vq * vq / aq then
+            let exact := vq / aq + dq / vq
+            if absR (t - exact) ≤ rel * exact then .ok "tt:cruise" else .error s!"cruise regime: model {ratToString exact} impl {ratToString t}"
+          else
+            let sq := 4 * dq / aq
+            -- distance/acceleration in the subnormal range has only a few significant bits: no precision is demanded
+            if sq < 16 * pow2 (-126) then
+              (if t ≥ 0 ∧ t * t ≤ 64 * pow2 (-126) then .ok "tt:triangular-subnormal" else .error s!"triangular regime (subnormal): model² {ratToString sq} impl {ratToString t}")
+            else
+            if absR (t * t - sq) ≤ 4 * rel * sq ∧ t ≥ 0 then .ok "tt:triangular" else .error s!"triangular regime: model² {ratToString sq} impl {ratToString t}"
+        | .pinf =>
+          -- a climb that takes longer than binary32 can express (subnormal speed, say) is reported as +inf
+          if vq / aq + dq / vq ≥ pow2 127 then .ok "tt:overflow" else .error s!"finite arguments must give a finite time, impl bits {rb}"
+        | _ => .error s!"finite arguments must give a finite time, impl bits {rb}"
+    | .fin dq, .fin vq, .pinf =>
+      if dq = 0 then (if r = .fin 0 then .ok "tt:zero" else .error "distance 0 must give 0") else
+      match r with
+      | .fin t => if absR (t - dq / vq) ≤ dq / vq / 262144 then .ok "tt:infacc" else .error s!"infinite acceleration: model {ratToString (dq / vq)} impl {ratToString t}"
+      | .pinf => if dq / vq ≥ pow2 127 then .ok "tt:overflow" else .error "infinite acceleration must give distance/speed"
+      | _ => .error "infinite acceleration must give distance/speed"
+    | .pinf, .fin _, _ =>
+      if r = .pinf then .ok "tt:infdist" else .error s!"infinite distance at finite speed must take infinitely long, impl bits {rb}"
+    | .fin dq, .pinf, .fin aq =>
+      if dq = 0 then (if r = .fin 0 then .ok "tt:zero" else .error "distance 0 must give 0") else
+      match r with
+      | .fin t =>
+        let sq := 4 * dq / aq
+        if absR (t * t - sq) ≤ sq / 65536 ∧ t ≥ 0 then .ok "tt:infspeed" else .error s!"unlimited speed: model² {ratToString sq} impl {ratToString t}"
+      | _ => .error "unlimited speed, finite distance: finite time expected"
+    | _, _, _ => .ok "tt:undetermined"     -- infinite distance at unlimited speed etc.: nothing is promised
+
 def opTt (args impl : List String) : Verdict :=
   match args.map fbitsArg, impl with
   | [some d, some v, some a], [rb] =>
     match f32Tok rb with
     | none => .fail "unparsable result"
     | some r =>
-      let invalid : Bool :=
-        (match d with | .fin q => q < 0 | .ninf => true | .nan => true | .pinf => false) ||
-        (match v with | .fin q => q ≤ 0 | .ninf => true | .nan => true | .pinf => false) ||
-        (match a with | .fin q => q ≤ 0 | .ninf => true | .nan => true | .pinf => false)
-      if invalid then (if r = .pinf then .ok ["tt:invalid"] else .fail s!"invalid arguments must give +inf, impl bits {rb}")
-      else
-        match d, v, a with
-        | .fin dq, .fin vq, .fin aq =>
-          if dq = 0 then (if r = .fin 0 then .ok ["tt:zero"] else .fail "distance 0 must give 0")
-          else
-            match r with
-            | .fin t =>
-              let rel : Rat := 1 / 262144
-              if dq ≥ vq * vq / aq then
-                let exact := vq / aq + dq / vq
-                if absR (t - exact) ≤ rel * exact then .ok ["tt:cruise"] else .fail s!"cruise regime: model {ratToString exact} impl {ratToString t}"
-              else
-                let sq := 4 * dq / aq
-                if absR (t * t - sq) ≤ 4 * rel * sq ∧ t ≥ 0 then .ok ["tt:triangular"] else .fail s!"triangular regime: model² {ratToString sq} impl {ratToString t}"
-            | _ => .fail s!"finite arguments must give a finite time, impl bits {rb}"
-        | .fin dq, .fin vq, .pinf =>
-          if dq = 0 then (if r = .fin 0 then .ok ["tt:zero"] else .fail "distance 0 must give 0") else
-          match r with
-          | .fin t => if absR (t - dq / vq) ≤ dq / vq / 262144 then .ok ["tt:infacc"] else .fail s!"infinite acceleration: model {ratToString (dq / vq)} impl {ratToString t}"
-          | _ => .fail "infinite acceleration must give distance/speed"
-        | .pinf, .fin _, _ =>
-          if r = .pinf then .ok ["tt:infdist"] else .fail s!"infinite distance at finite speed must take infinitely long, impl bits {rb}"
-        | .fin dq, .pinf, .fin aq =>
-          if dq = 0 then (if r = .fin 0 then .ok ["tt:zero"] else .fail "distance 0 must give 0") else
-          match r with
-          | .fin t =>
-            let sq := 4 * dq / aq
-            if absR (t * t - sq) ≤ sq / 65536 ∧ t ≥ 0 then .ok ["tt:infspeed"] else .fail s!"unlimited speed: model² {ratToString sq} impl {ratToString t}"
-          | _ => .fail "unlimited speed, finite distance: finite time expected"
-        | _, _, _ => .ok ["tt:undetermined"]     -- infinite distance at unlimited speed etc.: nothing is promised
+      match ttJudge d v a r rb with
+      | .ok tag => .ok [tag]
+      | .error m => .fail m
   | _, _ => .badCase "tt"
 
 /-- travel time never decreases with distance, up to float rounding (2^-20 relative) -/
